@@ -137,6 +137,17 @@ CHECKS = {
               "same sequences plus stress shapes (tiny, block-misaligned, everything-unpredictable, sampling distance 1): that half is exploration."),
         note=TB_COMMON + "Memory safety of C code is not derived by proof here: no C semantics is available in this toolbox (VST/CompCert absent); the ASan replay is labelled exploration. zlib/zstd internal allocations are outside the ledger.",
         technique="Coq proof (ledger invariant and balance by induction over call histories) + link-time allocation ledger compared with the model + AddressSanitizer replay of generated valid call sequences"),
+    "C02": dict(
+        category="proof", design_ref="DESIGN.md §4 C02",
+        text=("Proved over the reals (Coq Reals; Flocq not involved): an absolute error of log2(1+r) on log2|x| is a relative error of at most r on x; with the zero "
+              "placeholder a*e and threshold b*e below the smallest log-magnitude and a-1 > b > 1, every exact zero decodes to exactly 0 and no non-zero value does, for "
+              "any inner codec keeping the log-domain bound; sign restoration keeps every sign. The constants the code had (2.0001 / 1.0001) are a refuted statement "
+              "(a zero on the threshold), replayed on the implementation and repaired. The constants (3.0 / 1.5 in all six kernels), the fixed back end of the sign "
+              "plane on both sides, the exact fallback for unresolvable ratios, the private copy of the accelerated path and its range loop are extracted from the "
+              "source on every run and are proof obligations. The implementation is judged on every run by an exact oracle on generated arrays (mixed signs, zeros, "
+              "hundreds of binades, both paths, both back ends) under AddressSanitizer; denormal magnitudes are a listed finding."),
+        note=TB_COMMON + "No bit-exact model of the PW_REL kernels: libm's log2/exp2/pow are not modelled, so floating-point rounding inside the transform is covered by the oracle (exploration), the theorems are the real-number design argument. Axioms: the standard library's real numbers (ClassicalDedekindReals.sig_not_dec, sig_forall_dec, functional_extensionality_dep, Classical_Prop.classic).",
+        technique="Coq proof over the reals (log-domain bound, zero threshold, sign restoration) + source-fact obligations + exact point-wise oracle on the implementation"),
     "C04": dict(
         category="proof", design_ref="DESIGN.md §4 C04",
         text=("Proved: every byte of the parameter block (shared by all stream kinds) is assigned for every bound mode the writer handles, and its "
